@@ -199,8 +199,15 @@ namespace nmtools::array
             if (out_size == 1) {
                 // reduce all to single scalar
 
-                // vertical op
-                auto reg = op.set1(0);
+                // vertical op, accumulator starts from the identity of the reduction op (0 is wrong for multiply)
+                auto reg = op.set1([&]()->element_type{
+                    using op_type = meta::remove_cvref_t<decltype(view.op)>;
+                    if constexpr (meta::has_identity_v<op_type>) {
+                        return view.op.identity();
+                    } else {
+                        return 0;
+                    }
+                }());
                 for (size_t i=0; (i+N)<=size; i+=N) {
                     const auto operand = op.loadu(&inp_data_ptr[i]);
                     reg = op.eval(reg,operand);
